@@ -43,6 +43,21 @@ func scenarioDefs() []scenarioDef {
 
 func (g *Gen) pickScenario() string {
 	defs := scenarioDefs()
+	// `-focus scen:12,15`: only the listed scenario templates (directed search after a tie
+	// theorem of the functions they exercise stopped checking)
+	if strings.HasPrefix(g.cfg.focus, "scen:") {
+		var sel []scenarioDef
+		for _, n := range strings.Split(strings.TrimPrefix(g.cfg.focus, "scen:"), ",") {
+			for _, d := range defs {
+				if strings.HasPrefix(d.name, n+"-") {
+					sel = append(sel, d)
+				}
+			}
+		}
+		if len(sel) > 0 {
+			return sel[g.intn(len(sel))].name
+		}
+	}
 	ws := make([]float64, len(defs))
 	for i, d := range defs {
 		ws[i] = d.weight
